@@ -6,6 +6,7 @@ import (
 	"reflect"
 	"sync"
 	"sync/atomic"
+	"time"
 
 	"github.com/jub0bs/cors"
 )
@@ -170,7 +171,102 @@ func suiteSchedule(g *gen, e *emitter, n int) {
 	}
 }
 
+// stressScenarios: two histories whose set of legal outcomes is smaller than "any (configuration, debug) pair".
+func stressScenarios(e *emitter) {
+	cfgX := cors.Config{Origins: []string{"https://x.example"}, Methods: []string{"PUT"}}
+	cfgY := cors.Config{Origins: []string{"https://y.example"}, Methods: []string{"PUT"}}
+	failing := func(o string) request {
+		return request{method: "OPTIONS", hdrs: []kv{{"Origin", []string{o}}, {"Access-Control-Request-Method", []string{"NOBODY"}}}}
+	}
+	// (1) Both orders of a concurrent SetDebug(true) and Reconfigure(nil) leave debug off; so after a later
+	// Reconfigure(Y) a failing preflight must be answered as (Y, debug off).
+	{
+		verdict := "ok"
+		want := plain(&cfgY, false, failing("https://y.example"))
+		deadline := time.Now().Add(700 * time.Millisecond)
+		for round := 0; time.Now().Before(deadline) && verdict == "ok"; round++ {
+			m, _ := cors.NewMiddleware(cfgX)
+			var wg sync.WaitGroup
+			stop := make(chan struct{})
+			for w := 0; w < 3; w++ {
+				wg.Add(1)
+				go func() {
+					defer wg.Done()
+					for {
+						select {
+						case <-stop:
+							return
+						default:
+							m.SetDebug(true)
+						}
+					}
+				}()
+			}
+			m.Reconfigure(nil)
+			close(stop)
+			wg.Wait()
+			c := cfgY
+			m.Reconfigure(&c)
+			if got := runWithHook(m, failing("https://y.example"), -1, nil); got != want {
+				verdict = fmt.Sprintf("C07-DEBUG-SURVIVED-PASSTHROUGH round=%d got=%s want=%s", round, got, want)
+			}
+		}
+		e.emit("pair\tC07\tstress-scenario\tSetDebug(true) || Reconfigure(nil) ; Reconfigure(Y) ; failing preflight", verdict)
+	}
+	// (2) The writer only ever makes X current together with debug on: (Y,off) -> (Y,on) -> (X,on) -> (nil,off) -> (Y,off).
+	// Y allows the probe (same origin, any method), X refuses its method: the probe may be answered as (X,on), as (Y,·)
+	// or by the pass-through, never as (X,off) — the bare failure status.
+	{
+		cfgY := cors.Config{Origins: []string{"https://x.example"}, Methods: []string{"*"}}
+		rq := failing("https://x.example")
+		legal := map[string]bool{plain(&cfgX, true, rq): true, plain(&cfgY, false, rq): true, plain(&cfgY, true, rq): true}
+		pass := runWithHook(new(cors.Middleware), rq, -1, nil)
+		legal[pass] = true
+		illegal := plain(&cfgX, false, rq)
+		verdict := "ok"
+		if legal[illegal] {
+			verdict = "SCENARIO-NOT-DISCRIMINATING"
+		}
+		m, _ := cors.NewMiddleware(cfgY)
+		var bad atomic.Value
+		var readers sync.WaitGroup
+		stop := make(chan struct{})
+		for w := 0; w < 8; w++ {
+			readers.Add(1)
+			go func() {
+				defer readers.Done()
+				for {
+					select {
+					case <-stop:
+						return
+					default:
+					}
+					if got := runWithHook(m, rq, -1, nil); !legal[got] {
+						bad.Store("C07-RESPONSE-OF-A-STATE-THAT-WAS-NEVER-CURRENT got=" + got)
+					}
+				}
+			}()
+		}
+		deadline := time.Now().Add(700 * time.Millisecond)
+		for time.Now().Before(deadline) && bad.Load() == nil {
+			m.SetDebug(true)
+			cx := cfgX
+			m.Reconfigure(&cx)
+			m.Reconfigure(nil)
+			cy := cfgY
+			m.Reconfigure(&cy)
+		}
+		close(stop)
+		readers.Wait()
+		if v := bad.Load(); v != nil && verdict == "ok" {
+			verdict = v.(string)
+		}
+		e.emit("pair\tC07\tstress-scenario\t(Y,off) (Y,on) (X,on) (nil,off) cycled; failing preflights from X's origin", verdict)
+	}
+}
+
 func suiteStress(g *gen, e *emitter, n int) {
+	stressScenarios(e)
 	for i := 0; i < n; i++ {
 		var cfgs [2]cors.Config
 		for k := range cfgs {
